@@ -310,7 +310,6 @@ def _solve_contract(n, idx):
         h = c.real('height', -2.0, 2.0)
         ya0, ua0 = lens.paraxial.marginal_ray()
         c.require(c.val(ua0[idx - 1]) != 0)       # the ray reaching the surface is not parallel to the axis
-        c.require(c.val(ua0[idx]) != 0)
         before = c.snapshot(lens=lens.surface_group)
         lens.solves.add('marginal_ray_height', idx, h)
         ya, ua = lens.paraxial.marginal_ray()
@@ -342,7 +341,7 @@ def _image_solve_contract(n):
         lens.add_wavelength(0.55, is_primary=True)
         lens.set_aperture('EPD', c.real('EPD', 0.5, 10.0, positive=True))
         ya0, ua0 = lens.paraxial.marginal_ray()
-        c.require(c.val(ua0[n - 1]) != 0)
+        c.require(c.val(ua0[n - 2]) != 0)       # the ray arriving at the image surface is not parallel to the axis
         before = c.snapshot(lens=lens.surface_group)
         with c.no_raise('C01.image_solve.succeeds'):
             lens.image_solve()
